@@ -119,6 +119,7 @@ func calleeName(c *Ctx, call *ast.CallExpr) string {
 
 type rangeSite struct {
 	pkg, fn, operand, key, val string
+	next                       string // source of the statement right after the loop (reported for single-statement bodies only)
 	calls, exits               []string
 	line                       int
 }
@@ -258,6 +259,25 @@ func init() {
 						}
 					}
 					use := func(kind string) { uses[[3]string{relPkg, fn, kind}]++ }
+					// statement following each range statement in its statement list
+					nextOf := map[*ast.RangeStmt]ast.Stmt{}
+					ast.Inspect(root, func(n ast.Node) bool {
+						var list []ast.Stmt
+						switch b := n.(type) {
+						case *ast.BlockStmt:
+							list = b.List
+						case *ast.CaseClause:
+							list = b.Body
+						case *ast.CommClause:
+							list = b.Body
+						}
+						for i, st := range list {
+							if rs, ok := st.(*ast.RangeStmt); ok && i+1 < len(list) {
+								nextOf[rs] = list[i+1]
+							}
+						}
+						return true
+					})
 					ast.Inspect(root, func(n ast.Node) bool {
 						// every expression (value, not type) of floating-point or complex type
 						if e, ok := n.(ast.Expr); ok {
@@ -274,8 +294,15 @@ func init() {
 							}
 							if mt, ok := tv.Type.Underlying().(*types.Map); ok {
 								calls, exits := bodyFacts(c, s.Body)
+								next := ""
+								if len(s.Body.List) == 1 && nextOf[s] != nil {
+									next = c.Src(nextOf[s])
+									if len(next) > 120 {
+										next = next[:120]
+									}
+								}
 								ranges = append(ranges, rangeSite{pkg: relPkg, fn: fn, operand: c.Src(s.X), key: typeStr(mt.Key()), val: typeStr(mt.Elem()),
-									calls: calls, exits: exits, line: c.Fset.Position(s.Pos()).Line})
+									calls: calls, exits: exits, next: next, line: c.Fset.Position(s.Pos()).Line})
 							} else if _, isTP := tv.Type.(*types.TypeParam); isTP {
 								ranges = append(ranges, rangeSite{pkg: relPkg, fn: fn, operand: c.Src(s.X), key: "unknown", val: "unknown", line: c.Fset.Position(s.Pos()).Line})
 							}
@@ -331,8 +358,8 @@ func init() {
 			if i == len(ranges)-1 {
 				sep = ""
 			}
-			fmt.Fprintf(&sb, "  { pkg := %s, fn := %s, operand := %s, key := %s, val := %s,\n    calls := %s, exits := %s }%s\n",
-				LeanStr(r.pkg), LeanStr(r.fn), LeanStr(r.operand), LeanStr(r.key), LeanStr(r.val), leanList(r.calls), leanList(r.exits), sep)
+			fmt.Fprintf(&sb, "  { pkg := %s, fn := %s, operand := %s, key := %s, val := %s,\n    calls := %s, exits := %s, next := %s }%s\n",
+				LeanStr(r.pkg), LeanStr(r.fn), LeanStr(r.operand), LeanStr(r.key), LeanStr(r.val), leanList(r.calls), leanList(r.exits), LeanStr(r.next), sep)
 		}
 		sb.WriteString("]\n\n")
 		keys := make([][3]string, 0, len(uses))
